@@ -179,6 +179,35 @@ def list_field_consumption(nodes_list, var, field):
     return full, partial
 
 
+def check_fresh_namespace(ctx, rule: str) -> None:
+    prog = ctx.prog
+    ctx.rule(rule, "the interpreted engine binds generator variables in its namespace dict; matches() therefore builds that dict anew before every "
+                     "evaluation (a name left over from the previous record would make the next any()/all() raise instead of giving Python's answer)")
+    rcm = prog.cls("flow.record.selector.RecordContextMatcher")
+    mt8 = ctx.anchor_func("flow.record.selector.RecordContextMatcher.matches")
+    dyn = []
+    for fn in prog.methods_of(rcm).values():
+        for n in ast.walk(fn):
+            if isinstance(n, ast.Subscript) and isinstance(n.ctx, ast.Store) and norm(n.value) == "self.data" and not isinstance(n.slice, ast.Constant):
+                dyn.append(n)
+    ctx.floor(rule, "dynamic bindings in the interpreted namespace", len(dyn), 1)
+    mcfg8 = CFG(mt8)
+    evals8 = [c for c in calls_in(mt8) if norm(c.func) in ("self.eval", "self._eval")]
+    ctx.floor(rule, "evaluation calls in matches()", len(evals8), 1)
+    fresh = [st for st in walk_no_nested(mt8) if isinstance(st, ast.Assign) and any(norm(t) == "self.data" for t in st.targets)
+             and (isinstance(st.value, ast.Dict) or (isinstance(st.value, ast.Call) and call_name(st.value) == "dict"))]
+    removed = [n for fn in prog.methods_of(rcm).values() for n in ast.walk(fn)
+               if (isinstance(n, ast.Delete) and any(isinstance(t, ast.Subscript) and norm(t.value) == "self.data" for t in n.targets))
+               or (isinstance(n, ast.Call) and norm(n.func) in ("self.data.pop", "self.data.clear"))]
+    for ev in evals8:
+        en = mcfg8.node_of(ev)
+        ok8 = any(mcfg8.dominates(mcfg8.node_of(st).id, en.id) for st in fresh) or bool(removed)
+        ctx.check(ok8, rule, "matches:fresh-namespace", "matches() evaluates in a namespace dict that is not rebuilt for this record, and nothing removes the generator variables "
+                  f"bound by `{norm(dyn[0]._parent)[:50]}`: from the second record on a supported any()/all() expression is refused as overwriting a variable", ev,
+                  "self.data = {...} dominates self.eval(...)", key=f"{rule}:matches:namespace-reused")
+
+
+
 def run(ctx):
     prog = ctx.prog
     sel = prog.module("flow.record.selector")
@@ -482,31 +511,7 @@ def run(ctx):
                           f"{prm}={want}", key=f"R7.7:TypeMatcherInstance.{fn.name}:descent-drops:{prm}")
     ctx.floor("R7.7", "descents of the typed matcher into nested records", n_desc, 1)
 
-    # ------------------------------------------------------------------ R7.8 every evaluation starts from a fresh namespace
-    ctx.rule("R7.8", "the interpreted engine binds generator variables in its namespace dict; matches() therefore builds that dict anew before every "
-                     "evaluation (a name left over from the previous record would make the next any()/all() raise instead of giving Python's answer)")
-    rcm = prog.cls("flow.record.selector.RecordContextMatcher")
-    mt8 = ctx.anchor_func("flow.record.selector.RecordContextMatcher.matches")
-    dyn = []
-    for fn in prog.methods_of(rcm).values():
-        for n in ast.walk(fn):
-            if isinstance(n, ast.Subscript) and isinstance(n.ctx, ast.Store) and norm(n.value) == "self.data" and not isinstance(n.slice, ast.Constant):
-                dyn.append(n)
-    ctx.floor("R7.8", "dynamic bindings in the interpreted namespace", len(dyn), 1)
-    mcfg8 = CFG(mt8)
-    evals8 = [c for c in calls_in(mt8) if norm(c.func) in ("self.eval", "self._eval")]
-    ctx.floor("R7.8", "evaluation calls in matches()", len(evals8), 1)
-    fresh = [st for st in walk_no_nested(mt8) if isinstance(st, ast.Assign) and any(norm(t) == "self.data" for t in st.targets)
-             and (isinstance(st.value, ast.Dict) or (isinstance(st.value, ast.Call) and call_name(st.value) == "dict"))]
-    removed = [n for fn in prog.methods_of(rcm).values() for n in ast.walk(fn)
-               if (isinstance(n, ast.Delete) and any(isinstance(t, ast.Subscript) and norm(t.value) == "self.data" for t in n.targets))
-               or (isinstance(n, ast.Call) and norm(n.func) in ("self.data.pop", "self.data.clear"))]
-    for ev in evals8:
-        en = mcfg8.node_of(ev)
-        ok8 = any(mcfg8.dominates(mcfg8.node_of(st).id, en.id) for st in fresh) or bool(removed)
-        ctx.check(ok8, "R7.8", "matches:fresh-namespace", "matches() evaluates in a namespace dict that is not rebuilt for this record, and nothing removes the generator variables "
-                  f"bound by `{norm(dyn[0]._parent)[:50]}`: from the second record on a supported any()/all() expression is refused as overwriting a variable", ev,
-                  "self.data = {...} dominates self.eval(...)", key="R7.8:matches:namespace-reused")
+    check_fresh_namespace(ctx, "R7.8")
 
     # ------------------------------------------------------------------ R7.6 namespace agreement (informational + wiring)
     ctx.rule("R7.6", "the compiled engine evaluates the expression text unchanged with Python's eval in a namespace holding "
